@@ -50,6 +50,9 @@ type CABehaviour struct {
 	Comments []string
 	Err      string
 	Panic    bool
+	// ErrWithCerts: the call fails (Err) but hands back certificates next to the error; they are
+	// not recorded in CACall.Certs, because the request was not signed.
+	ErrWithCerts bool
 }
 
 // FakeCA implements csr.Signer: it really certifies the requested public key.
@@ -93,7 +96,7 @@ func (ca *FakeCA) Sign(ctx context.Context, req *proto.SSHCertificateSigningRequ
 	if b.Panic {
 		panic("verif: the signer panics")
 	}
-	if b.Err != "" {
+	if b.Err != "" && !b.ErrWithCerts {
 		return nil, nil, errors.New(b.Err)
 	}
 	pub, _, _, _, err := ssh.ParseAuthorizedKey([]byte(req.PublicKey))
@@ -116,6 +119,9 @@ func (ca *FakeCA) Sign(ctx context.Context, req *proto.SSHCertificateSigningRequ
 		}
 		out = append(out, c)
 		certs = append(certs, c)
+	}
+	if b.Err != "" {
+		return out, b.Comments, errors.New(b.Err)
 	}
 	ca.mu.Lock()
 	ca.Calls[i].Certs = certs
